@@ -62,7 +62,8 @@ var kernelShapes = map[string]struct {
 			"return new:pogreb.bucketHandle, nil",
 			"return nil, (*pogreb.file).extend(p0.overflow,512)#1",
 			"store new:pogreb.bucketHandle.file = p0.overflow",
-			"store new:pogreb.bucketHandle.offset = phi",
+			"store new:pogreb.bucketHandle.offset = p0.freeBucketOffs[0]",
+			"store new:pogreb.bucketHandle.offset = (*pogreb.file).extend(p0.overflow,512)#0",
 			"store p0.freeBucketOffs = p0.freeBucketOffs[1:]",
 			"if ((*pogreb.file).extend(p0.overflow,512)#1!=nil)",
 			"if (len(p0.freeBucketOffs)>0)",
